@@ -160,6 +160,9 @@ func (w *didWorld) bindMore(sid *sidIdent, mut string) {
 		who = "eth:" + ek.Addr
 	} else {
 		target := w.pickUnbound()
+		if mut == "self-join" {
+			creator = target // an unbound account submits the binding of itself, with its own valid proof
+		}
 		accId = accountIdOf(target)
 		signer := target
 		if mut == "wrong-signer" {
@@ -352,7 +355,7 @@ func (w *didWorld) payAddr(mut string) {
 }
 
 var didBindMuts = []string{"wrong-signer", "wrong-signdata", "bad-root", "did-mismatch", "bad-accid", "other-chain", "garbage-sig", "unrelated-message", "keys-changed", "stale"}
-var didMoreMuts = []string{"wrong-signer", "garbage-sig", "stale", "dup-accdid", "unbound-creator", "eth-case", "eth-case"}
+var didMoreMuts = []string{"wrong-signer", "garbage-sig", "stale", "dup-accdid", "unbound-creator", "eth-case", "eth-case", "self-join", "self-join"}
 var didRotMuts = []string{"unbound-creator", "stale", "drop-payment", "none-removed", "unhandled", "foreign-update", "bad-doc", "old-doc", "dup-seed"}
 var didPayMuts = []string{"unbound-creator", "other-chain", "second-kid", "bad-did", "did-url", "did-url"}
 
